@@ -64,7 +64,7 @@ Check(p) ==
                          wtypesOK |-> \A n \in DOMAIN an.wits : n \in DOMAIN wtypes /\ an.wits[n] = wtypes[n],
                          params |-> [n \in DOMAIN an.params |-> an.params[n]],
                          valt |-> IF "alt" \in DOMAIN p
-                                  THEN [i \in 1..Len(space) |-> RunSrc(p.alt, space[i], EmptyFn)] ELSE <<>>,
+                                  THEN [i \in 1..Len(space) |-> RunSrc(p.alt, space[i], av)] ELSE <<>>,
                          \* tracked call sites that are part of the compiled program (C14), with sample input values
                          sites |-> LET rs == ReachableSites(m, an) IN
                                    [i \in 1..Len(rs) |->
